@@ -92,6 +92,12 @@ CLAIMS = {
         note="Partial by construction. The clamp's soundness condition (K >= 3, only while no boundary is buffered) is checked by C01/R1.3.",
         ref="DESIGN.md section 3, C15",
     ),
+    "C02": dict(
+        technique="static analysis: symbolic length algebra (linear forms over |boundary|, |content_type|, digit-count atoms and end-start) comparing the Content-Length formula with the emitted template and both emitters; header-before-start dominance and HEAD independence on all handler paths; If-Range gate facts; writer/reader expression agreement; open/close pairing on all exits",
+        text="Decides for all boundary/content-type/number lengths whether the closed-form multipart Content-Length equals what is emitted: the formula and the emissions (f-string of the header generator, per-range and closing pieces of both handle_several_ranges) are reduced to linear forms and compared coefficient by coefficient, so a changed template, line ending, extra header or one-sided emitter edit is reported whatever the digit counts. Also decided on all paths: framing headers are written before the start event and independently of HEAD, the HEAD path opens nothing and sends one empty body, single-range headers and reader arguments use the same (start, end), Range is honoured only behind the If-Range gate and judge_if_range compares against the emitted validators, the 400/416 path forwards status/headers ('*/size') and opens nothing, ASGI descriptors are closed on every normal and exceptional exit. Not decided: that the chunk loops read exactly end-start bytes for every chunk_size alignment.",
+        note="Partial. Assumes the part header text is one byte per character. Sibling agreement of the handlers is C04, the emit grammar is C05.",
+        ref="DESIGN.md section 3, C02",
+    ),
 }
 
 NOT_APPLICABLE = {
